@@ -72,7 +72,11 @@ func (P *Program) concretize(fn *ssa.Function, target string, opts VerifyOpts) (
 		if k == 0 {
 			cfg.unrollAll = -1 // loops executed zero times: only code before the first loop
 		}
+		P.applyLemmaConfig(fn, cfg)
+		cfg.unroll = map[string]int{}
+		cfg.unwindAssert = map[string]bool{}
 		ex := P.newExecFromInit(cfg)
+		ex.argPrefix = fn.Name() + "."
 		var args []Value
 		var params []ParamInfo
 		for _, p := range fn.Params {
